@@ -233,7 +233,7 @@ CONFIG["C12"] = {
 CONFIG["C13"] = {
     "level": "other", "proof": True, "rtc": True, "lean": ["lemmas/C13EnumUnique.lean"], "lean_quick": True,
     "explanation": "Proved: sqra_normalize on csr and on dense input (off-diagonal unchanged, diagonal reset, rows sum to zero, frame); "
-                   "find_el_within_nested_list (ascending positions of exactly the groups holding the element); "
+                   "find_el_within_nested_list (helper-level, weak `internal:` obligations: ascending positions of exactly the groups holding the element); "
                    "delete_rate_cells end to end for a csr matrix of any size n and any removal list, no incoming index list: `to_keep` K is "
                    "the strictly ascending complement of the removed rows, the result is |K| x |K| with entry (a,b) = M[K_a,K_b] off the "
                    "diagonal and zero row sums, the returned index list has one group per row and group a = [K_a] (rows and groups "
